@@ -36,6 +36,11 @@ def use_repo():
     if sys.path[0] != REPO:
         sys.path.insert(0, REPO)
     os.environ.setdefault('PGRADD_VERIF', '1')
+    try:
+        from rdkit import RDLogger
+        RDLogger.DisableLog('rdApp.*')
+    except Exception:
+        pass
 
 
 @contextlib.contextmanager
